@@ -204,8 +204,9 @@ def batch(core, mod, prop, seed, n, args, scratch, t0):
             return 2
         small = core.minimise(mod, spec, sig, isolated=True, budget=getattr(mod, "SHRINK_BUDGET", 300))
         fin = core.execute_isolated(mod, small, keep_log=10000)
-        os.makedirs(os.path.join(HERE, "replays"), exist_ok=True)
-        path = os.path.join(HERE, "replays", f"{prop}-{seed}-{idx}.json")
+        rdir = os.environ.get("VERIF_REPLAY_DIR") or os.path.join(HERE, "replays")
+        os.makedirs(rdir, exist_ok=True)
+        path = os.path.join(rdir, f"{prop}-{seed}-{idx}.json")
         with open(path, "w") as f:
             json.dump({"property": prop, "verif_seed": seed, "run_index": idx, "signature": sig,
                        "detail": (fin.get("violation") or {}).get("detail"),
